@@ -34,15 +34,24 @@ theorem route_hit (s : St) (f : Frame) (c : Nat) (hs : s.shutdown = false) (hm :
     (hl : lookup s.pending f.seq = some c) :
     (step s (.frame f)).pending = erase s.pending f.seq
     ∧ (∀ v, v ≠ c → (step s (.frame f)).calls[v]? = s.calls[v]?)
-    ∧ (∀ r, s.calls[c]? = some r → r.oneway = false →
-        ∃ r', (step s (.frame f)).calls[c]? = some r' ∧ r'.outcome = some (outcomeOf f) ∧ r'.signals = r.signals + 1)
+    ∧ (∀ r, s.calls[c]? = some r →
+        ∃ r', (step s (.frame f)).calls[c]? = some r' ∧ r'.outcome = some (frameOutcome r f) ∧ r'.signals = r.signals + 1)
     ∧ (step s (.frame f)).chan = s.chan := by
   simp only [step, hs, hm, hl, Bool.false_eq_true, if_false]
   refine ⟨trivial, ?_, ?_, trivial⟩
   · intro v hv; rw [signal_get]; simp [hv]
-  · intro r hr ho
-    refine ⟨bump (outcomeOf f) r, ?_, by simp [bump], by simp [bump]⟩
-    rw [signal_get]; simp [hr, ho]
+  · intro r hr
+    refine ⟨bump (frameOutcome r f) r, ?_, by simp [bump], by simp [bump]⟩
+    rw [signal_get]; simp [hr]
+
+/-- …where the outcome is the frame's own: for a call issued with Go/Call and a reply value, the
+    service error text, the decoded reply, or a decoding error of ITS reply; for a raw call
+    (SendRaw) the service error text or the payload bytes as they are -/
+theorem frameOutcome_plain (r : CallRec) (f : Frame) (hr : r.raw = false) (ho : r.oneway = false) :
+    frameOutcome r f = outcomeOf f := by simp [frameOutcome, hr, ho]
+
+theorem frameOutcome_raw (r : CallRec) (f : Frame) (hr : r.raw = true) :
+    frameOutcome r f = if f.isError then .svcErr f.tag else .reply f.tag := by simp [frameOutcome, hr]
 
 /-- Routing, miss: a response carrying an unknown or already-completed sequence number changes
     nothing at all. -/
@@ -85,7 +94,7 @@ theorem any_order (s : St) (hi : Inv s) (hs : s.shutdown = false) (q c : Nat) (r
     (hp : (q, c) ∈ s.pending) (hr : s.calls[c]? = some r) (ho : r.oneway = false) :
     ∀ fs : List Frame,
       match fs.find? (fun f => !f.isServerMessage && f.seq == q) with
-      | some f => ∃ r', (feed s fs).calls[c]? = some r' ∧ r'.outcome = some (outcomeOf f) ∧ r'.signals = 1
+      | some f => ∃ r', (feed s fs).calls[c]? = some r' ∧ r'.outcome = some (frameOutcome r f) ∧ r'.signals = 1
                     ∧ (q, c) ∉ (feed s fs).pending
       | none => (feed s fs).calls[c]? = some r ∧ (q, c) ∈ (feed s fs).pending := by
   intro fs
@@ -104,7 +113,7 @@ theorem any_order (s : St) (hi : Inv s) (hs : s.shutdown = false) (q c : Nat) (r
       have hq : f.seq = q := by simp at hmatch; exact hmatch.2
       have hl : lookup s.pending f.seq = some c := by rw [hq]; exact lookup_of_mem hi.keys hp
       obtain ⟨h1, h2, h3, _⟩ := route_hit s f c hs hm hl
-      obtain ⟨r', hr', ho', hs'⟩ := h3 r hr ho
+      obtain ⟨r', hr', ho', hs'⟩ := h3 r hr
       -- afterwards the call is no longer pending, so nothing later touches it
       have hnp : ∀ q', (q', c) ∉ (step s (.frame f)).pending := by
         intro q' hmem
@@ -172,7 +181,7 @@ theorem any_order (s : St) (hi : Inv s) (hs : s.shutdown = false) (q c : Nat) (r
 
 /-- sequence numbers handed out by `register` are pairwise distinct (the counter is read and
     incremented in one section): distinct calls never share a pending key -/
-theorem seqs_distinct (oneways : List Bool) (evs : List Ev) :
+theorem seqs_distinct (oneways : List (Bool × Bool)) (evs : List Ev) :
     ((run (init oneways) evs).pending.map (·.1)).Nodup :=
   (inv_run _ (inv_init oneways) evs).keys
 
